@@ -102,13 +102,13 @@ CLAIMS = {
     "C11": dict(
         technique="Lean 4 induction over squaring steps on the model of core/flow.py expv (sampling an affine field "
                   "inside the hull is exact) + correspondence of the literal recursion",
-        text="9 theorems: one squaring step on the sampled displacement of a hull-preserving affine map gives the sampled "
+        text="11 theorems: one squaring step on the sampled displacement of a hull-preserving affine map gives the sampled "
              "displacement of its square; hence expv with k steps equals the displacement of (I+sH, sh) iterated 2^k "
              "times at every grid point, for every k, dimension, grid size >= 2, either align_corners and padding; zero "
              "steps; inverse flag = negated scale = negated field; a checkable sufficient condition for hull "
              "invariance. The literal recursion (incl. clamping) is compared with the implementation on random fields; "
              "closed form as a matrix power (C11_closed_form_matrix_power); convergence to exp(H) is proved for diagonal generators "
-             "(C11_limit_diagonal_partial); the general limit and the second-order smooth-field bound are exploration only (partial).",
+             "(C11_limit_diagonal_partial); the general limit and the second-order smooth-field bound are exploration only (partial). The module ExpFlow and the velocity-field transform that owns one are a state model: inverse() negates the scale and keeps steps and convention, re-gridding replaces the convention and keeps scale and steps, the two commute (definitions regenerated from modules/flow.py and spatial/nonrigid.py every run).",
         ref="5 C11"),
     "C13": dict(
         technique="Lean 4 theorems on the model of core/flow.py compose_flows/lie_bracket/compose_svfs + correspondence "
@@ -175,7 +175,7 @@ CLAIMS = {
     "C16": dict(
         technique="Lean 4 theorems on list models of the losses (reductions, masks, NCC/LCC, Dice/Tversky, MI symmetry) + "
                   "correspondence of functional and module forms",
-        text="60 theorems: mean/sum are the mean/sum of none; masked pointwise losses ignore mask-0 samples and average over "
+        text="64 theorems: mean/sum are the mean/sum of none; masked pointwise losses ignore mask-0 samples and average over "
              "the mask; norm scaling; pointwise losses zero/range/symmetric; NCC and LCC identical/range (Cauchy-Schwarz)/"
              "symmetric/affine-invariant with the exact epsilon law; Dice/Tversky identical/symmetric/range and "
              "Tversky(1/2,1/2) = Dice on binary inputs; MI symmetric for arbitrary window/log. the mixed encodings of one binary segmentation (foreground channel / one-hot / label map) give the same index and 1 for identical inputs. "
@@ -183,7 +183,7 @@ CLAIMS = {
              "documented mask shape; MI with a 0/1 mask equals MI of the kept samples and ignores masked-out values. All six "
              "defects found (tversky_loss TypeError, tversky weight shape, NMI class, multi-class label-map target, ncc mask "
              "shape, mi mask) were repaired by fix: commits; no C16 finding is open. MI/NMI identical/range need properties "
-             "of log (not stated).",
+             "of log (not stated). The factor the normalised loss classes derive from norm / source / target (None, True, False, a number; both, one or no reference image) is a model with theorems (forms, symmetry, c^2 scaling for every c != 0, positivity) regenerated from losses/base.py every run.",
         ref="5 C16"),
     "C17": dict(
         technique="Lean 4 theorems on the regularisers assembled from the C12 stencil model, lame_parameters, "
